@@ -29,18 +29,33 @@ def cosAcc : List F.F32 → List F.F32 → F.F32 × F.F32 × F.F32 → F.F32 × 
       cosAcc xs ys (F.add32 d (F.mul32 x y), F.add32 na (F.mul32 x x), F.add32 nb (F.mul32 y y))
   | _, _, acc => acc
 
-/-- vector_ops.rs:155-164. -/
-def cosFinish (d na nb : F.F32) : F.F64 :=
-  let normA := F.sqrt64 (F.to64 na)
-  let normB := F.sqrt64 (F.to64 nb)
+/-- the tail shared by both accumulation widths: zero norms ⇒ `0.0`, else `1 - clamp(d / (‖a‖·‖b‖))`. -/
+def cosTail (d normA normB : F.F64) : F.F64 :=
   if F.eq64 normA F.zero64 || F.eq64 normB F.zero64 then F.zero64
-  else F.sub64 F.one64 (F.clamp64 (F.div64 (F.to64 d) (F.mul64 normA normB)) F.negOne64 F.one64)
+  else F.sub64 F.one64 (F.clamp64 (F.div64 d (F.mul64 normA normB)) F.negOne64 F.one64)
 
-/-- vector_ops.rs:139 `cosine_distance`. -/
+/-- `cosine_distance` after its single f32 pass (norms via f64 `sqrt`). -/
+def cosFinish (d na nb : F.F32) : F.F64 :=
+  cosTail F (F.to64 d) (F.sqrt64 (F.to64 na)) (F.sqrt64 (F.to64 nb))
+
+/-- the single pass of `cosine_distance_wide`: the same sums in f64. -/
+def cosAcc64 : List F.F32 → List F.F32 → F.F64 × F.F64 × F.F64 → F.F64 × F.F64 × F.F64
+  | x :: xs, y :: ys, (d, na, nb) =>
+      cosAcc64 xs ys (F.add64 d (F.mul64 (F.to64 x) (F.to64 y)), F.add64 na (F.mul64 (F.to64 x) (F.to64 x)),
+                      F.add64 nb (F.mul64 (F.to64 y) (F.to64 y)))
+  | _, _, acc => acc
+
+/-- `cosine_distance_wide`: used when an f32 accumulator is not finite. -/
+def cosWide (a b : List F.F32) : F.F64 :=
+  match cosAcc64 F a b (F.zero64, F.zero64, F.zero64) with
+  | (d, na, nb) => cosTail F d (F.sqrt64 na) (F.sqrt64 nb)
+
+/-- `cosine_distance` (after `fix: cosine_distance falls back to f64 sums …`). -/
 def cosine (a b : List F.F32) : F.F64 :=
   if a.length != b.length then F.inf64
   else match cosAcc F a b (F.zero32, F.zero32, F.zero32) with
-    | (d, na, nb) => cosFinish F d na nb
+    | (d, na, nb) =>
+      if F.isFin32 d && F.isFin32 na && F.isFin32 nb then cosFinish F d na nb else cosWide F a b
 
 def dotAcc : List F.F32 → List F.F32 → F.F64 → F.F64
   | x :: xs, y :: ys, acc => dotAcc xs ys (F.add64 acc (F.mul64 (F.to64 x) (F.to64 y)))
@@ -94,6 +109,13 @@ def quantLinear (v : List F.F32) : List Int :=
   let mx := v.foldl F.max32 F.negInf32
   let range := F.sub32 mx mn
   if F.eq32 range F.zero32 then v.map (fun _ => 0)
+  else if !(F.isFin32 range) && F.isFin32 mn && F.isFin32 mx then
+    -- `max - min` left the f32 range: scale in f64
+    let mn64 := F.to64 mn
+    let range64 := F.sub64 (F.to64 mx) mn64
+    v.map (fun x =>
+      let scaled := F.sub64 (F.mul64 (F.div64 (F.sub64 (F.to64 x) mn64) range64) (F.ofInt64 255)) (F.ofInt64 128)
+      F.toI8_64 (F.clamp64 (F.round64 scaled) (F.ofInt64 (-128)) (F.ofInt64 127)))
   else v.map (fun x =>
     let normalized := F.div32 (F.sub32 x mn) range
     let scaled := F.sub32 (F.mul32 normalized (c255 F)) (c128 F)
@@ -109,7 +131,12 @@ def quantSym (v : List F.F32) : List Int :=
   if F.eq32 m F.zero32 then v.map (fun _ => 0)
   else
     let scale := F.div32 (c127 F) m
-    v.map (fun x => F.toI8 (F.clamp32 (F.round32 (F.mul32 x scale)) (F.ofInt32 (-127)) (c127 F)))
+    if !(F.isFin32 scale) && F.isFin32 m then
+      -- `127 / max_abs` left the f32 range (sub-normal magnitudes): scale in f64
+      let scale64 := F.div64 (F.ofInt64 127) (F.to64 m)
+      v.map (fun x => F.toI8_64 (F.clamp64 (F.round64 (F.mul64 (F.to64 x) scale64)) (F.ofInt64 (-127)) (F.ofInt64 127)))
+    else
+      v.map (fun x => F.toI8 (F.clamp32 (F.round32 (F.mul32 x scale)) (F.ofInt32 (-127)) (c127 F)))
 
 /-- vector_ops.rs:535 `dequantize_vector`. -/
 def dequant (q : List Int) : List F.F32 := q.map F.ofInt32
@@ -130,7 +157,8 @@ def cosineI8 (a b : List Int) : F.F64 :=
   let d := zipInt (fun x y => x * y) a b
   let na := zipInt (fun x _ => x * x) a b
   let nb := zipInt (fun _ y => y * y) a b
-  if na == 0 || nb == 0 then F.one64
+  if na == 0 && nb == 0 then F.zero64
+  else if na == 0 || nb == 0 then F.one64
   else F.sub64 F.one64 (F.clamp64 (F.div64 (F.ofInt64 d) (F.mul64 (F.sqrt64 (F.ofInt64 na)) (F.sqrt64 (F.ofInt64 nb)))) F.negOne64 F.one64)
 
 def dotI8 (a b : List Int) : F.F64 :=
